@@ -307,7 +307,7 @@ class ComplexWatsonTrainer:
             covariance = np.einsum(
                 "...n,...nd,...nD->...dD", saliency, y, y.conj()
             )
-            denominator = np.einsum("...n->...", saliency)[..., None, None]
+            denominator = np.sum(saliency, axis=-1)[..., None, None]
 
         covariance /= denominator
         mode, eigenvalues = get_pca(covariance)
